@@ -654,6 +654,12 @@ fn spawn_async_ao_list_in_task'''),
         ('plain-operator-strips-tabs', 'brush-parser/src/parser/peg.rs', "                    remove_tabs: false,", "                    remove_tabs: true,"),
         ('backslash-in-the-delimiter-does-not-count-as-quoting', 'brush-parser/src/parser/peg.rs', [("specific_operator(\"<<\") here_tag:here_tag() doc:[_] closing_tag:here_tag() {\n                let requires_expansion = !here_tag.to_str().contains(['\\'', '\"', '\\\\']);", "specific_operator(\"<<\") here_tag:here_tag() doc:[_] closing_tag:here_tag() {\n                let requires_expansion = !here_tag.to_str().contains(['\\'', '\"', '\"']);")]),
     ],
+    'U65': [
+        ('missing-key-of-an-associative-array-tolerated', 'brush-core/src/expansion.rs', "                    Ok(Expansion::from(value.to_string()))\n                } else {\n                    self.undefined_expansion(parameter, allow_unset_vars)\n                }\n            }\n            brush_parser::word::Parameter::NamedWithAllIndices", "                    Ok(Expansion::from(value.to_string()))\n                } else {\n                    self.undefined_expansion(parameter, allow_unset_vars || is_set_assoc_array)\n                }\n            }\n            brush_parser::word::Parameter::NamedWithAllIndices"),
+        ('unset-positional-parameter-always-tolerated', 'brush-core/src/expansion.rs', "                    Ok(Expansion::from(parameter.to_owned()))\n                } else {\n                    self.undefined_expansion(parameter, allow_unset_vars)", "                    Ok(Expansion::from(parameter.to_owned()))\n                } else {\n                    self.undefined_expansion(parameter, true)"),
+        ('declared-but-unset-name-reads-as-empty', 'brush-core/src/expansion.rs', "                    if matches!(var.value(), ShellValue::Unset(_)) {\n                        self.undefined_expansion(parameter, allow_unset_vars)", "                    if matches!(var.value(), ShellValue::Unset(_)) {\n                        Ok(Expansion::from(String::new()))"),
+        ('positional-parameters-counted-from-zero', 'brush-core/src/expansion.rs', "self.shell.current_shell_args().get((p - 1) as usize)", "self.shell.current_shell_args().get(*p as usize)"),
+    ],
     'U64': [
         ('keys-of-an-array-literal-transformed-too', 'brush-core/src/variables.rs', ".map(|(k, v)| (k, self.convert_value_str_for_assignment(v)))", ".map(|(k, v)| (k.map(|k| self.convert_value_str_for_assignment(k)), self.convert_value_str_for_assignment(v)))"),
         ('values-of-an-array-literal-not-transformed', 'brush-core/src/variables.rs', ".map(|(k, v)| (k, self.convert_value_str_for_assignment(v)))", ".map(|(k, v)| (k, v))"),
